@@ -603,7 +603,7 @@ theorem mid_step (h : Host) (b : Block) (hb : b.mid = true) (nog : ∀ i, b ≠ 
   have hbody : ∀ s, count isGoodbye (closeBody h s).2.1 = 0 := by
     intro s; simp [closeBody, hreg, count]
   cases b with
-  | recv s q d u da =>
+  | recv s q d u da aa =>
     simp only [step] at hs
     split at hs
     · simp at hs
@@ -1204,7 +1204,7 @@ theorem ZcInv_step (h : Host) (b : Block) (h' : Host) (o : List Out) (hz : ZcInv
     intro b _ _ hzt
     cases hzt
   cases b with
-  | recv s q d u da =>
+  | recv s q d u da aa =>
     simp only [step] at hs
     split at hs
     · simp at hs
@@ -1335,7 +1335,7 @@ theorem QueuesEmpty_step (h : Host) (b : Block) (h' : Host) (o : List Out) (hq :
   have hct : ∀ b : Browser, emptyB b → b.tracked = true → emptyB { b with cancelled := true, timer := false, listening := false } :=
     fun b hb _ => hb
   cases b with
-  | recv s q d u da => simp [step, ht] at hs
+  | recv s q d u da aa => simp [step, ht] at hs
   | cleanupFire e => simp [step, hcl] at hs
   | apiBrowse tr rp th zt => simp [Block.isBrowse] at hnb
   | schedFire i q =>
